@@ -25,12 +25,13 @@ func init() {
 			"(S3) on every success path Diff.Actions is an initially empty list extended by the element loops of exactly the non-nil sections, in the order create < modify < delete and nodes < ways < relations, with nothing appended elsewhere; every path through an iteration that stays in Change appends exactly one action and no path leaves a loop without a non-nil error; " +
 			"(S4) created elements and elements whose missing history is ignored get Visible=true and an ActionCreate action holding exactly the change element; an element with an earlier version gets the action type of its section, Old holding the entry selected by the scan, New holding the change element, and Visible false exactly in change.Delete; " +
 			"(S5) a non-nil history error leads to a create action exactly when NotFound(err) and ignore-missing hold, to the typed error with the element's FeatureID when NotFound(err) holds without ignore-missing, and is returned unchanged otherwise; iteration paths depend on no other condition and have no other effect; the ignore-missing flag is Options.IgnoreMissingChildren read after all options were applied; errors outside element iterations come from applying an option. " +
+			"Error values are tracked through interface conversions: a nil pointer of a concrete error type returned, assigned or passed as `error` is a distinct non-nil value (typed nil), so `no error` means the untyped nil on every path that requires it. Loop-carried state may live in locals, in the fields of a struct value, in fresh objects (builder with a list field) or behind a pointer to a local; read-only unexported package-level tables and map literals indexed by constants are evaluated. " +
 			"NOT decided: behaviour of user HistoryDatasourcer implementations (contents of histories, what NotFound answers), aliasing effects of writing Visible through the caller's element pointers, which of the documented error types (NoHistoryError / NoVisibleChildError) is used, capacity/allocation of the action slice, panics on malformed input (nil elements).",
 		Assumptions: []string{"go/types (x/tools v0.29.0)", "valid OSM versions are >= 1", "HistoryDatasourcer.NotFound classifies errors as documented (a function of the error)",
 			"append semantics of the Go builtin", "entries of a history returned by the datasource are non-nil (the scan dereferences every entry)",
 			"one-expression accessor functions of package osm (FeatureID) are evaluated from their source"},
 		LevelText:  "Symbolic evaluation of every path of annotate.Change (callees in package annotate executed in place, loops summarised per iteration) checked against finite decision tables: per element iteration over {history error, NotFound, ignore-missing, earlier version found, history empty}; for the history scan over the nine order relations between the entry's version, the element's version and the best so far; plus the structure (sections, kinds, order, threading) of the returned action list on every success path.",
-		LevelNote:  "Trusts the Go type checker. History contents are arbitrary (the scan table is what makes the result independent of order and gaps). Datasource implementations are not analysed. Code outside the evaluated subset of Go (goroutines, defer, goto, type switches, address of locals) is reported as undecided, not accepted.",
+		LevelNote:  "Trusts the Go type checker. History contents are arbitrary (the scan table is what makes the result independent of order and gaps). Datasource implementations are not analysed. Code outside the evaluated subset of Go (goroutines, defer, goto, type switches, comma-ok forms) is reported as undecided, and an action list built by indexed stores into a presized slice as a violation; neither is accepted.",
 		Technique:  "path-sensitive symbolic execution over go/ast + go/types with in-place execution of same-package callees, normalised condition atoms, per-iteration loop summaries; finite-domain evaluation of the paths against decision tables",
 		DesignRef:  "DESIGN.md §5 C13",
 		Exhaustive: true,
